@@ -176,3 +176,19 @@ package m
 //@   ensures hops-total [C11]: (len(sp.Hops) >= 2 && len(sp.Hops) <= 255 ==> int(sp.TotalHops) == len(sp.Hops) - 1) && (len(sp.Hops) <= 1 ==> sp.TotalHops == 1) && (len(sp.Hops) > 255 ==> sp.TotalHops == 254)
 //@   ensures spare-for-probes [C11]: sp.TotalHops >= 1 && sp.TotalHops <= 254
 //@   invariant 1 sum: 0 <= delay && delay <= 65535 * (rangeindex + 1)
+
+// The two search probes of a section lie below and above every real route to that destination / prefix
+// (real routes have 1..254 hops and a delay below 65535).
+//@ func RoutingTable.getDstSection
+//@   callsite slices.BinarySearchFunc#1 lower-probe [C11]: arg1.DstIP == dst && arg1.Path.TotalHops == 0 && arg1.Path.TotalDelay == 0
+//@   callsite slices.BinarySearchFunc#2 upper-probe [C11]: arg1.DstIP == dst && arg1.Path.TotalHops == 255 && arg1.Path.TotalDelay == 65535
+//@ func RoutingTable.getPrefixSection
+//@   callsite slices.BinarySearchFunc#1 lower-probe [C11]: arg1.Path.TotalHops == 0 && arg1.Path.TotalDelay == 0
+//@   callsite slices.BinarySearchFunc#2 upper-probe [C11]: arg1.Path.TotalHops == 255 && arg1.Path.TotalDelay == 65535
+
+// BuildBlocks writes the labels into two new zero-filled buffers (no bytes of an earlier build survive behind the
+// labels). Only this is claimed here; that the labels fit is CalculateBlockSize's contract and the bounded check of C12.
+//@ func SwitchPath.BuildBlocks
+//@   option nosafety
+//@   requires sp != nil
+//@   ensures new-buffers [C12]: result == nil ==> fresh(base(sp.ForwardBlock)) && fresh(base(sp.ReturnBlock)) && base(sp.ForwardBlock) != base(sp.ReturnBlock)
